@@ -145,6 +145,26 @@ CLAIMS.update({
    design="3/C20"),
 })
 
+# later additions (kept as addenda so that each block above stays as first written)
+GEN = "covering array over 13 scenario dimensions: every pair, thorough every triple, of dimension values; 34 / 146 scenarios"
+GEN2 = "covering array over 13 scenario dimensions: every pair, thorough every triple, of dimension values; 35 / 173 scenarios, plus numeric boundary families: body sizes +-2 around 256 / 1024 / 16384 / 32768 / 65535 plain and vectored, windows one below / at / above the body size, a window used up exactly before a zero-length end, reservations 1..12 through a send buffer of 5"
+for k in ('C01', 'C04', 'C06', 'C17'):
+    CLAIMS[k]['text'] = CLAIMS[k]['text'].replace(GEN, GEN2)
+FILL = " Write-buffer fill sweep (X3): the subject's codec is filled to every level around 'full' by blocking the transport, the control frames it then owes (%s) become due, the transport opens: each owed frame must appear exactly once, in order, and nothing else may change."
+CLAIMS['C03']['text'] += FILL % "WINDOW_UPDATEs for released octets on streams and connection"
+CLAIMS['C05']['text'] += FILL % "REFUSED_STREAM resets for streams over the limit" + " Server model also: responding with a body and connection polls with the transport blocked."
+CLAIMS['C14']['text'] += FILL % "SETTINGS ACKs and PING ACKs, one per frame received, in order"
+CLAIMS['C15']['text'] += FILL % "the GOAWAY pair of a graceful shutdown, the GOAWAY of an abrupt one" + " The server model also lets the peer send WINDOW_UPDATE / DATA END_STREAM on the last accepted stream and on a stream racing the GOAWAY (a shutdown must not turn into a connection error)."
+CLAIMS['C17']['text'] += FILL % "RST_STREAMs for application resets and for stream errors" + " GOAWAY surfacing on handles (code, origin, debug data) is judged here for the client model of C15."
+CLAIMS['C08']['text'] += " Family (d): Pad Length sweeps - every pad length 0..=len+1 for DATA / HEADERS / PUSH_PROMISE payloads of several sizes, with and without PRIORITY."
+CLAIMS['C18']['text'] += " Oversized header lists are also sent split across HEADERS + CONTINUATION inside fields; an explicit oracle flags an oversized list that is accepted; counters show that streams are actually accepted under the tiny limits (vacuity guard)."
+CLAIMS['C19']['text'] += " Further models: a peer stream window of 2 so that END_STREAM is queued behind flow-control-blocked DATA (client and server), RST_STREAM after the peer's END_STREAM and crossing the endpoint's own reset; and the server side (peer opens up to two streams with / without body, DATA, END_STREAM, RST_STREAM; the application responds, ends, resets, pushes, reads, drops RecvStream / SendResponse / SendStream in every order relative to polls) with the same leak oracle."
+CLAIMS['C19']['note'] = "Seven models (client: remember / expire / mid / blocked; server: remember / expire / blocked) share the tier budget; only completed depths are claimed."
+CLAIMS['C07']['text'] += " Scenarios include push, graceful and abrupt shutdown, parked requests, client- and server-side connection drops. The user-ping handle across the end of the connection is checked with loom over the real ping_pong.rs (models end-*: every interleaving of 'pong arrives, connection dropped' with poll_pong / send_ping, and a drop in every state of the handle): afterwards every operation must fail within three steps, never stay Pending."
+CLAIMS['C20']['text'] += " (3) X4 idle-close models (threads-idle, threads-idle-mid): one SendRequest, up to two body-less requests answered completely by the peer; polling, reading and dropping of ResponseFuture / SendStream / RecvStream / the SendRequest itself on the second thread between polls or inside the connection's poll; from every state: everything is let go, nothing more arrives, and the connection must still send GOAWAY(NO_ERROR) and complete."
+CLAIMS['C09']['text'] = CLAIMS['C09']['text'].replace("32 states per", "39 states per")
+CLAIMS['C10']['note'] += " The length sweep uses single-symbol strings per Huffman code-length class."
+
 NOT_YET = "check not built yet (work in progress; DESIGN.md section 3 describes the planned harness)"
 NA = {}
 
@@ -176,8 +196,8 @@ m = {
  "engines": [
    {"name": "h2verif", "path": "/verif/engine", "serves_properties": sorted(k for k, c in CLAIMS.items() if c.get('engine', 'h2verif') == 'h2verif'),
     "kind_free_text": "Rust harness around the real h2 crate: deterministic simulator hosting real client/server endpoints, exhaustive explorers (deviation-bounded schedules, explicit-state BFS, finite-domain enumeration), independent RFC 9113 / RFC 7541 oracles (h2wire)"},
-   {"name": "pingloom", "path": "/verif/pingloom", "serves_properties": ["C20"],
-    "kind_free_text": "loom models over the real text of /repo/src/proto/ping_pong.rs (build.rs redirects its atomics to loom); run by the C20 check of h2verif, one child process per model"},
+   {"name": "pingloom", "path": "/verif/pingloom", "serves_properties": ["C07", "C20"],
+    "kind_free_text": "loom models over the real text of /repo/src/proto/ping_pong.rs (build.rs redirects its atomics to loom); run by the C20 check (all models) and the C07 check (models end-*) of h2verif, one child process per model"},
  ],
  "checks": checks,
  "not_applicable": na,
